@@ -29,5 +29,14 @@ CHECKS["C20"] = {
     "quick": {"checks": 4000, "timeout": 600, "vmem_kb": 0},
     "thorough": {"checks": 60000, "timeout": 3000, "vmem_kb": 0, "shards": 8},
 }
+CHECKS["C04"] = {
+    "pkg": "./props/c04",
+    "level": "exploration",
+    "technique": "property-based testing (rapid): generated configurations x requests against a reference authorisation model, a call-recording token and a metamorphic header relation",
+    "level_text": "Generated relic configurations (clients by SPKI fingerprint or issuing CA incl. chains, wrong EKU, expired; role sets; keys incl. aliases that dangle / chain / self-reference, hidden, tokenless, undefined-token; trusted-proxy lists v4/v6/CIDR) are loaded through config.ReadFile and served by the real server.New(cfg).Handler(). For each generated request (endpoint, key, peer, TLS chain, X-Forwarded-For / Ssl-Client-Cert, or bearer token with a scripted policy endpoint) a reference model of the statement predicts 401/403/400/allowed; a recording token registered via token.Openers proves no GetKey/Sign on refused requests; the access log's stack field exposes recovered panics; listings are checked in both directions; headers from untrusted peers must leave status, body, logged address/user and audit identity unchanged; audit records must name the resolved key, the model's client and address.",
+    "level_note": "TLS chains are injected as tls.ConnectionState (no handshake). For a trusted peer that sends no X-Forwarded-For either identity source is accepted. Entitled callers of role-less keys (reachable only through policy allowed_keys) may get an error: relic opens no token for them and C04 does not demand success.",
+    "quick": {"checks": 2500, "timeout": 600},
+    "thorough": {"checks": 40000, "timeout": 3000, "shards": 8},
+}
 for _pid in CHECKS:
     NOT_APPLICABLE.pop(_pid, None)
